@@ -1,8 +1,8 @@
 # memfault-copy-after-clear (family exhaustive): asan
 salloc 0 2 2
 salloc 1 2 2
-sins 1 1 0
-scopy 1 0
+sins 0 0 0
+scopy 0 1
 scopy 0 1
 sfree 0
 sfree 1
